@@ -1,13 +1,20 @@
 #!/bin/sh
 # runs the repository's pinned test suite (guard off) and compares with BASELINE.json.stable_pass
-ninja -C /repo/_build -k 0 >/tmp/celma_baseline_ninja.log 2>&1
-ctest --test-dir /repo/_build -j8 --timeout 900 >/tmp/celma_baseline_ctest.log 2>&1
-python3 - <<'PY'
+# (serialised: several builders share /repo/_build)
+exec 9>/tmp/celma_baseline.lock
+flock 9
+D=$(mktemp -d /tmp/celma_baseline.XXXXXX)
+ninja -C /repo/_build -k 0 >$D/ninja.log 2>&1
+ctest --test-dir /repo/_build -j8 --timeout 900 >$D/ctest.log 2>&1
+python3 - "$D/ctest.log" <<'PY'
 import json,re,sys
 want=set(t.split("::")[0] for t in json.load(open("/root/.vp/BASELINE.json"))["stable_pass"])
-passed=set(re.findall(r"Test\s+#\d+:\s+(\S+)\s+\.+\s+Passed", open("/tmp/celma_baseline_ctest.log").read()))
+passed=set(re.findall(r"Test\s+#\d+:\s+(\S+)\s+\.+\s+Passed", open(sys.argv[1]).read()))
 missing=sorted(want-passed)
 print("baseline: %d/%d stable tests pass" % (len(want&passed), len(want)))
 if missing:
     print("NOT PASSING:", " ".join(missing)); sys.exit(1)
 PY
+rc=$?
+rm -rf "$D"
+exit $rc
